@@ -9,6 +9,13 @@
                        the `shutil.copytree` call inside the module-level wrapper `copytree` (ford/output.py;
                        absent = the library default False), which decide what the copy of a tree that
                        contains symbolic links consists of; the copy function must be `shutil.copy`
+  wipeWholeTree / wipeFailureFatal
+                     : the clean-up at the start of `Documentation.writeout` (the statements before the loop that
+                       creates the fixed sub-directories): is the old output removed by one `shutil.rmtree(<out_dir>)`
+                       on the output directory itself (which unlinks every symbolic link below it without following
+                       it); does a failing `<out_dir>.mkdir(...)` - the directory is still there - end the run
+  graphSkipsLinks    : does `FortranGraph._create_image_file` (ford/graphs.py) test `is_symlink` before it lets
+                       graphviz write (the graph directory is never cleaned: links left in it are still there)
   fixedNames         : every string constant that `writeout`, `BasePage` subclasses (`out_page`,
                        `template_path` of ListTopPage), `print_output` and `dump_modules` join to the
                        output directory with `/`
@@ -57,6 +64,77 @@ def copytree_kwargs(tree) -> dict:
     if copy_fn != "shutil.copy":
         raise LookupError(f"copy_function of shutil.copytree is {copy_fn}, the model assumes shutil.copy")
     return res
+
+
+_REMOVERS = {"unlink", "rmdir", "remove", "rmtree", "rename", "replace", "removedirs", "move"}
+_LISTERS = {"iterdir", "scandir", "listdir", "glob", "rglob", "walk"}
+
+
+def wipe_shape(wo: ast.FunctionDef) -> dict:
+    """The clean-up of the old output directory in `Documentation.writeout`."""
+    var = None
+    for st in wo.body:
+        if isinstance(st, (ast.Assign, ast.AnnAssign)):
+            tgt = st.targets[0] if isinstance(st, ast.Assign) else st.target
+            if isinstance(tgt, ast.Name) and st.value is not None and "output_dir" in ast.unparse(st.value):
+                var = tgt.id
+                break
+    if var is None:
+        raise LookupError("Documentation.writeout: the variable holding the output directory was not found")
+    section = []
+    for st in wo.body:
+        if isinstance(st, ast.For) and isinstance(st.iter, ast.List) and ".mkdir(" in ast.unparse(st):
+            break
+        section.append(st)
+    else:
+        raise LookupError("Documentation.writeout: the loop creating the fixed sub-directories was not found")
+    calls = [n for st in section for n in ast.walk(st) if isinstance(n, ast.Call)]
+
+    def attr(c):
+        return c.func.attr if isinstance(c.func, ast.Attribute) else (c.func.id if isinstance(c.func, ast.Name) else "")
+
+    def on_out(c):  # the call acts on the output directory itself
+        if isinstance(c.func, ast.Attribute) and isinstance(c.func.value, ast.Name) and c.func.value.id == var:
+            return True
+        return bool(c.args) and isinstance(c.args[0], ast.Name) and c.args[0].id == var
+
+    rmtrees = [c for c in calls if attr(c) == "rmtree"]
+    whole = len(rmtrees) == 1 and on_out(rmtrees[0]) and ast.unparse(rmtrees[0].func) == "shutil.rmtree"
+    others = [c for c in calls if attr(c) in _REMOVERS | _LISTERS and c not in rmtrees
+              and not (attr(c) == "unlink" and on_out(c))]
+    if not rmtrees and not others:
+        raise LookupError("Documentation.writeout: no clean-up of the old output directory found")
+    if whole and others:
+        raise LookupError("Documentation.writeout: the clean-up does more than rmtree(<out_dir>) (not modelled): "
+                          + ", ".join(ast.unparse(c)[:60] for c in others))
+    # <out_dir>.mkdir(...): fatal when it fails?
+    mk = [c for c in calls if attr(c) == "mkdir" and on_out(c)]
+    if len(mk) != 1:
+        raise LookupError(f"Documentation.writeout: expected one {var}.mkdir(...) in the clean-up, found {len(mk)}")
+    exist_ok = any(k.arg == "exist_ok" and not (isinstance(k.value, ast.Constant) and k.value.value is False)
+                   for k in mk[0].keywords)
+    fatal = not exist_ok
+    for st in section:
+        for t in ast.walk(st):
+            if isinstance(t, ast.Try) and any(mk[0] is n for b in t.body for n in ast.walk(b)):
+                for h in t.handlers:
+                    ends = any(isinstance(n, ast.Raise) or (isinstance(n, ast.Call) and ast.unparse(n.func) in
+                                                             ("sys.exit", "exit", "quit", "os._exit"))
+                               for b in h.body for n in ast.walk(b))
+                    if not ends:
+                        fatal = False
+    return {"wipeWholeTree": whole, "wipeFailureFatal": fatal}
+
+
+def graph_skips_links(repo: Path) -> bool:
+    gr = ast.parse((repo / "ford" / "graphs.py").read_text())
+    fn = _find_func(gr, "FortranGraph", "_create_image_file")
+    src_calls = [n for n in ast.walk(fn) if isinstance(n, ast.Call)]
+    if not any(isinstance(c.func, ast.Attribute) and c.func.attr == "render" for c in src_calls):
+        raise LookupError("FortranGraph._create_image_file: the graphviz render call was not found")
+    if any(isinstance(c.func, ast.Attribute) and c.func.attr in _REMOVERS - {"rename"} for c in src_calls):
+        raise LookupError("FortranGraph._create_image_file removes files (not modelled)")
+    return any(isinstance(c.func, ast.Attribute) and c.func.attr in ("is_symlink", "islink") for c in src_calls)
 
 
 def lean_bool(b: bool) -> str:
@@ -109,7 +187,9 @@ def extract(repo: Path | None = None) -> dict:
     if not pages:
         raise LookupError("out_page constants of the list pages not found")
     kw = copytree_kwargs(out)
-    return {"copytreeSymlinks": kw["symlinks"], "copytreeIgnoreDangling": kw["ignore_dangling_symlinks"],
+    wipe = wipe_shape(wo)
+    return {"wipeWholeTree": wipe["wipeWholeTree"], "wipeFailureFatal": wipe["wipeFailureFatal"],
+            "graphSkipsLinks": graph_skips_links(repo), "copytreeSymlinks": kw["symlinks"], "copytreeIgnoreDangling": kw["ignore_dangling_symlinks"],
             "copytreeDirsExistOk": kw["dirs_exist_ok"], "symbolReplacements": repl, "outDirs": out_dirs, "libDirs": lib_dirs,
             "fixedNames": sorted(set(fixed)), "listPages": sorted(pages.values())}
 
@@ -124,6 +204,12 @@ def generate(repo: Path | None = None) -> dict:
          "def copytreeIgnoreDangling : Bool := " + lean_bool(t["copytreeIgnoreDangling"]), "",
          "/-- `dirs_exist_ok=` of the same call -/",
          "def copytreeDirsExistOk : Bool := " + lean_bool(t["copytreeDirsExistOk"]), "",
+         "/-- the clean-up in `Documentation.writeout` is `shutil.rmtree(<out_dir>)` on the output directory itself -/",
+         "def wipeWholeTree : Bool := " + lean_bool(t["wipeWholeTree"]), "",
+         "/-- a failing `<out_dir>.mkdir(...)` after the clean-up ends the run -/",
+         "def wipeFailureFatal : Bool := " + lean_bool(t["wipeFailureFatal"]), "",
+         "/-- `FortranGraph._create_image_file` tests `is_symlink` before graphviz writes -/",
+         "def graphSkipsLinks : Bool := " + lean_bool(t["graphSkipsLinks"]), "",
          "/-- the dict literal of `NameSelector.get_name` -/",
          "def symbolReplacements : List (Char × Str) := ["
          + ", ".join(f"('{k}', {lean_str(v)})" if k not in "'\\" else f"(Char.ofNat {ord(k)}, {lean_str(v)})" for k, v in t["symbolReplacements"]) + "]", "",
